@@ -145,6 +145,16 @@ theorem C02_cex_column_cr :
     simp only [decide_eq_true_eq] at h
     exact ⟨o, c', rfl, h.1, h.2⟩
 
+set_option maxRecDepth 100000 in
+/-- **C02_cex_cr_written_raw** (finding F-cr-altered; replay corpus/writeval/findings.req, corpus/writeval11/regressions.req) — the
+    hypothesis "no CR" of the round-trip theorems is necessary: in both output versions `cif_write` SUCCEEDS on the string
+    `a<CR>b` and hands the CR to the output as it is (inside triple quotes in CIF 2.0, inside a text field in CIF 1.1); every CIF
+    reader normalises a CR to a line terminator (property C08), so the value read back is `a<LF>b`: success with altered content. -/
+theorem C02_cex_cr_written_raw :
+    C02Doc.written (writeCif 0 (C02Doc.oneItem (.chr true (a!"a\rb")))) = a!"#\\#CIF_2.0\n\ndata_b\n\n_x '''a\rb'''\n\n\n\n"
+    ∧ C02Doc.written (writeCif 1 (C02Doc.oneItem (.chr true (a!"a\rb")))) = a!"#\\#CIF_1.1\n\ndata_b\n\n_x \n;a\rb\n;\n\n\n\n" := by
+  decide +kernel
+
 -- non-vacuity: the sample document of `C02_roundtrip_doc` is clean, and a step with a list, a table and a text field
 example : containersX C02Doc.sample := C02_clean_of_line_hypotheses _ C02_roundtrip_doc_instance.1
 example : (C02_Step.item (a!"_x") (.lst [.chr true (a!"a b"), .tbl [(a!"k", a!"k", .chr true (a!"p\nq"))], .unk])).clean := by
